@@ -238,6 +238,22 @@ class InitPart:
 
 
 @dataclasses.dataclass
+class Frag:
+    """ONE assignment statement of a (large) function that is otherwise outside this translator: `<targets> = <expr>`, translated as a
+    function of the listed parameters of the enclosing function.  Accepted only if (i) exactly one statement of the whole function
+    (at any depth) has the target text `targets`, and it is a top-level statement of the function body, (ii) every free name of
+    `<expr>` is a listed parameter (or a checked import / a lambda parameter), (iii) none of those parameters is stored to anywhere
+    before that statement, (iv) the function's parameter list contains the listed parameters."""
+    file: str
+    qual: str
+    lean: str
+    targets: str            # the unparsed target, e.g. "(params, static)"
+    params: list            # (python name, type): the parameters of the enclosing function the expression may read
+    binders: object = None
+    doc: str = ""
+
+
+@dataclasses.dataclass
 class V:
     ty: object = None
     code: str = ""
@@ -266,7 +282,7 @@ class Block:
 
     @property
     def monadic(self):
-        return any(l[0] != "let" for l in self.lines)
+        return any(l[0] not in ("let", "early_none") for l in self.lines)
 
 
 class Tr:
@@ -287,6 +303,7 @@ class Tr:
         self.ret = None
         self.unused = set()
         self.ctor_fields = None         # inside a `Ctor`: attribute name -> V of the `self.<f>` assigned so far
+        self.early = []                 # types of the values returned early (`if <e> is None: return r`)
 
     # ------------------------------------------------------------------ helpers
     @property
@@ -448,9 +465,18 @@ class Tr:
                 return char_lit(node.value)
             return No("a one-character string constant expected")
         if isinstance(spec, tuple) and spec and spec[0] == "lit":
-            return None if node is not None and ast.unparse(node) == spec[1] else No(f"literally `{spec[1]}` expected")
+            if node is not None and ast.unparse(node) == spec[1]:
+                if getattr(self.sheet, "CHECK_LIT_ROOTS", False):
+                    root = spec[1].split(".")[0]
+                    if root in self.env:
+                        return No(f"`{spec[1]}`: `{root}` is a local variable here")
+                    self.need_root(spec[1])
+                return None
+            return No(f"literally `{spec[1]}` expected")
         if v is None:
             return No("missing argument")
+        if v.kind == "unevaluated":
+            return No(v.code)
         if v.kind == "empty":
             if isinstance(spec, tuple) and spec[0] == "List":
                 try:
@@ -544,6 +570,8 @@ class Tr:
             return self.call(n)
         if isinstance(n, (ast.GeneratorExp, ast.ListComp)):
             return self.comp(n)
+        if isinstance(n, ast.Lambda):
+            return self.lambda_value(n)
         if isinstance(n, ast.JoinedStr):
             parts = []
             for p in n.values:
@@ -555,6 +583,30 @@ class Tr:
                     raise Refuse("f-string part with a conversion / format spec")
             return V(STR, " ++ ".join(parts) if parts else str_lit(""))
         raise Refuse(f"expression {type(n).__name__}: `{ast.unparse(n)[:60]}`")
+
+    def lambda_value(self, n):
+        """`lambda v: e` (sheets with `LAMBDA_PARAMS`: the parameter's type is the sheet's for that NAME; one positional parameter, no
+        default, not shadowing a variable): a pure function value"""
+        table = getattr(self.sheet, "LAMBDA_PARAMS", None)
+        if table is None:
+            raise Refuse(f"expression Lambda: `{ast.unparse(n)[:60]}`")
+        a = n.args
+        if len(a.args) != 1 or a.posonlyargs or a.kwonlyargs or a.vararg or a.kwarg or a.defaults or a.kw_defaults:
+            raise Refuse(f"`{ast.unparse(n)[:60]}`: a lambda other than `lambda v: e`")
+        name = a.args[0].arg
+        if name not in table:
+            raise Refuse(f"`{ast.unparse(n)[:60]}`: the lambda parameter `{name}` is not typed by the sheet")
+        if name in self.env or any(re.search(rf"\b{re.escape(name)}\b", k) for k in self.narrow):
+            raise Refuse(f"`{ast.unparse(n)[:60]}`: the lambda parameter `{name}` shadows a variable")
+        ln = self.lname(name)
+        self.env[name] = V(table[name], ln)
+        self.pure_only += 1
+        try:
+            body = self.lean(self.ex(n.body))
+        finally:
+            self.pure_only -= 1
+            del self.env[name]
+        return V(F([table[name]], body.ty), f"(fun ({ln} : {self.ty(table[name])}) => {body.code})")
 
     def tuple_display(self, n):
         if not n.elts:
@@ -740,6 +792,12 @@ class Tr:
                         raise Refuse(f"starred argument `{ast.unparse(a)}` that is not a tuple")
                     k = len(v.ty) - 1
                     out += [(V(t, proj(paren(v.code), i, k)), None) for i, t in enumerate(v.ty[1:])]
+            elif getattr(self.sheet, "LAZY_LIT_ARGS", False):
+                # an argument that only a `("lit", text)` spec can consume (`eqx.is_inexact_array`, a class name) has no value of its own
+                try:
+                    out.append((self.ex(a), a))
+                except Refuse as ex:
+                    out.append((V(kind="unevaluated", code=str(ex)), a))
             else:
                 out.append((self.ex(a), a))
         return out
@@ -1157,6 +1215,29 @@ class Tr:
         body = "; ".join(lets + [c.code])
         self.blk.lines.append(("guard", f"List.any {paren(it.code)} (fun {var} => {body})", self.raise_term(st.body[0].body[0])))
 
+    def is_early_none_return(self, st):
+        return (getattr(self.sheet, "EARLY_RETURN_NONE", False) and isinstance(st, ast.If) and not st.orelse and len(st.body) == 1
+                and isinstance(st.body[0], ast.Return) and st.body[0].value is not None)
+
+    def do_early_none_return(self, st):
+        """`if <e> is None: return r` at the top level of a function (sheets with `EARLY_RETURN_NONE`): a `match` whose `none` arm
+        is `r` and whose `some v` arm is the REST of the function, which sees `<e>` narrowed to `v`.  Any other test is refused."""
+        nar = self.narrow_test(st.test)
+        if nar is None or not nar[2]:
+            raise Refuse(f"`{ast.unparse(st.test)[:60]}`: an early `return` under a test other than `<optional> is None`")
+        if self.pure_only:
+            raise Refuse("early return inside a lambda / conditional expression")
+        key, ov, _ = nar
+        self.pure_only += 1
+        try:
+            val = self.lean(self.ex(st.body[0].value), "return value")
+        finally:
+            self.pure_only -= 1
+        var = self.tmp("v")
+        self.blk.lines.append(("early_none", ov.code, var, val.code))
+        self.early.append(val.ty)
+        self.narrow[key] = V(ov.ty[1], var)
+
     def do_assert(self, st):
         """`assert <e> is not None`: `none`-arm raises AssertionError, the rest of the block sees `<e>` narrowed"""
         nar = self.narrow_test(st.test)
@@ -1197,6 +1278,11 @@ class Tr:
         assigned = self.assigned_names(st.body)
         if any(nm in targets for nm in assigned):
             raise Refuse("the loop body assigns a loop target")
+        if getattr(self.sheet, "LOOP_REBINDS_NESTED", False):
+            # `for d in ds: g = wrap(g, d)` with `g` a nested def: from here on `g` is a function VALUE (its closure), carried by the fold
+            for nm in assigned:
+                if nm in self.env and self.env[nm].kind == "fn" and self.env[nm].items.get("kind") == "fn" and nm not in self.frozen:
+                    self.env[nm] = self.emit_let(self.lname(nm), self.lean(self.env[nm]))
         carried = [nm for nm in assigned if nm in self.env and self.env[nm].kind == "lean"]
         for nm in assigned:
             if nm in self.env and self.env[nm].kind != "lean":
@@ -1383,6 +1469,12 @@ class Tr:
                 out.append(f"{self.M('bind')} ({l[2]}) fun {l[1]} =>")
             elif l[0] == "assert_some":
                 out.append(f"match {l[1]} with | none => {l[3]} | some {l[2]} =>")
+            elif l[0] == "early_none":
+                arm = f"{self.M('pure')} {paren(l[3])}" if monadic else l[3]
+                if multi:   # the rest of the function is the right-hand side of `some`: it must not start left of the `|`
+                    out.append(f"match {l[1]} with\n{indent}| none => {arm}\n{indent}| some {l[2]} =>")
+                else:
+                    out.append(f"match {l[1]} with | none => {arm} | some {l[2]} =>")
             else:
                 out.append(f"if {l[1]} then {l[2]} else")
         out.append(f"{self.M('pure')} {paren(final)}" if monadic and final_pure else final)
@@ -1421,7 +1513,7 @@ class Tr:
         if spec.kind not in ("fn", "vmap"):
             raise Refuse(f"nested function `{st.name}` of kind {spec.kind} outside its decorator")
         sub = Tr(self.gen, self.fn, st, lean, params, env={k: v for k, v in self.env.items() if v.kind in ("lean", "fn", "dict")}, nested=self.nested)
-        sub.narrow = dict(self.narrow)
+        sub.narrow = {k: v for k, v in self.narrow.items() if not any(re.search(rf"\b{re.escape(p)}\b", k) for p, _ in params)}
         info = sub.translate(nested_kind=spec.kind)
         self.frozen |= set(info["captured_py"])
         self.env[st.name] = V(kind="fn", items=info)
@@ -1433,6 +1525,8 @@ class Tr:
                 continue
             if isinstance(st, ast.Assign):
                 self.do_assign(st)
+            elif top and self.is_early_none_return(st):
+                self.do_early_none_return(st)
             elif isinstance(st, ast.If):
                 self.do_if(st)
             elif isinstance(st, ast.For):
@@ -1531,6 +1625,9 @@ class Tr:
         self.block(self.node.body, top=True)
         if self.ret is None:
             raise Refuse("function does not end in `return`")
+        for t in self.early:
+            if t != self.ret.ty:
+                raise Refuse(f"an early `return` of type {t} in a function returning {self.ret.ty}")
         monadic = self.blk.monadic
         body = self.compose(self.blk.lines, self.ret.code, monadic)
         caps = self.captured(body) if nested_kind is not None else []
@@ -1830,6 +1927,37 @@ class Gen:
                              f"def {c.lean} {c.binders}{' ' if c.binders else ''}{ptxt} : {rty} :=", "  " + text, ""]))
         self.check_bindings(c.file)
 
+    def do_frag(self, c):
+        node = self.find(c.file, c.qual)
+        a = node.args
+        have = [x.arg for x in a.posonlyargs + a.args + a.kwonlyargs]
+        for p, _ in c.params:
+            if p not in have:
+                raise Refuse(f"`{c.qual}` has no parameter `{p}`")
+        hits = [x for x in ast.walk(node) if isinstance(x, ast.Assign) and len(x.targets) == 1 and ast.unparse(x.targets[0]) == c.targets]
+        if len(hits) != 1 or hits[0] not in node.body:
+            raise Refuse(f"`{c.qual}` has {len(hits)} statements `{c.targets} = …` (exactly one, at the top level of the body, is expected)")
+        st = hits[0]
+        pnames = {p for p, _ in c.params}
+        for prev in node.body[:node.body.index(st)]:
+            for x in ast.walk(prev):
+                if isinstance(x, ast.Name) and isinstance(x.ctx, (ast.Store, ast.Del)) and x.id in pnames:
+                    raise Refuse(f"`{x.id}` is assigned before `{c.targets} = …`")
+                if isinstance(x, (ast.FunctionDef, ast.Lambda)) and any(y.arg in pnames for y in ast.walk(x.args) if isinstance(y, ast.arg)):
+                    raise Refuse(f"a parameter name is shadowed before `{c.targets} = …`")
+        fn = Fn(c.file, c.qual, c.lean, c.params, binders=c.binders)
+        tr = Tr(self, fn, node, c.lean, c.params)
+        tr.enter()
+        tr.pure_only += 1
+        val = tr.lean(tr.ex(st.value))
+        if tr.blk.lines:
+            raise Refuse("the expression needs statements")
+        binders = self.sheet.BINDERS if c.binders is None else c.binders
+        ptxt = " ".join(f"({tr.lname(p)} : {self.lean_ty(t)})" for p, t in c.params)
+        self.emit("\n".join([f"/-- `{c.file}` :: `{c.qual}` :: the statement `{c.targets} = …` (l. {st.lineno}){(' — ' + c.doc) if c.doc else ''} -/",
+                             f"def {c.lean} {binders}{' ' if binders else ''}{ptxt} : {self.lean_ty(val.ty)} :=", "  " + val.code, ""]))
+        self.check_bindings(c.file)
+
     def run(self):
         sheet, errors = self.sheet, []
         for (head, f), t in getattr(sheet, "FIELDS", {}).items():
@@ -1859,6 +1987,9 @@ class Gen:
                     continue
                 if isinstance(item, InitPart):
                     self.do_init_part(item)
+                    continue
+                if isinstance(item, Frag):
+                    self.do_frag(item)
                     continue
                 node = self.find(item.file, item.qual)
                 is_method = "." in item.qual
@@ -1898,7 +2029,7 @@ class Gen:
         return {"text": text, "errors": errors, "targets": [i.lean for i in sheet.ITEMS]}
 
 
-SHEETS = ["targets_losses", "targets_dist_public", "targets_jaxtr", "targets_families", "targets_bnafnet", "targets_net"]
+SHEETS = ["targets_losses", "targets_dist_public", "targets_jaxtr", "targets_families", "targets_bnafnet", "targets_net", "targets_unwrap"]
 
 
 def generate(repo: str) -> dict:
